@@ -5,6 +5,10 @@ EXTENDS Stencil, TLC
 CONSTANTS MaxN, MaxN2        \* cell counts 2..MaxN for 1-D arrays, 2..MaxN2 for 2-D arrays
 
 Vals == {-1, 0, 2}
+\* MC_Stencil_specials.cfg: missing values and infinities among the data (Vals <- ValsSpecial)
+ValsSpecial == {-1, 2, NaNv, InfV, -InfV}
+Finite(x) == \A k \in DOMAIN x.flat : x.flat[k] \notin {NaNv, InfV, -InfV}
+NoNaN(x) == \A k \in DOMAIN x.flat : x.flat[k] # NaNv
 Fills == {-1, 0, 3}
 Shifts == {<<f, t>> \in PosWords \X PosWords : ValidShift(f, t)}
 Seqs(S, L) == [1..L -> S]
@@ -30,10 +34,16 @@ Run == /\ phase = "call"
 Spec == Init /\ [][Run]_vars
 
 StencilOK == phase = "done" => res = GeoStencil(a, c.d, op, c.sh[1], c.sh[2], rule, fill)
-CumsumOK  == phase = "done" => resc = GeoCumsum(a, c.d, c.sh[1], c.sh[2], rule, fill)
+\* (running sums are compared for data without NaN: the library's running sum skips missing values of floating-point
+\* data, which neither layer models and the property does not speak about)
+CumsumOK  == (phase = "done" /\ NoNaN(a)) => resc = GeoCumsum(a, c.d, c.sh[1], c.sh[2], rule, fill)
 ShapeOK   == phase = "done" => /\ res.shape = [a.shape EXCEPT ![c.d] = PLen(c.sh[2], c.n)]
                                /\ resc.shape = res.shape /\ WellFormed(res) /\ WellFormed(resc)
 \* differencing a running sum taken to the outer position with zero fill gives the array back
-InverseOK == (phase = "call" /\ c.sh = <<"center", "outer">>) =>
+InverseOK == (phase = "call" /\ c.sh = <<"center", "outer">> /\ Finite(a)) =>
+               GeoStencil(GeoCumsum(a, c.d, "center", "outer", "fill", 0), c.d, "diff", "outer", "center", rule, fill) = a
+\* with NaN or an infinity in the data the inverse breaks exactly where IEEE arithmetic says (inf - inf): the unguarded
+\* claim is refuted by MC_Stencil_specials_refute.cfg (a non-vacuity check of the guard above)
+InverseAlways == (phase = "call" /\ c.sh = <<"center", "outer">>) =>
                GeoStencil(GeoCumsum(a, c.d, "center", "outer", "fill", 0), c.d, "diff", "outer", "center", rule, fill) = a
 =============================================================================
